@@ -35,6 +35,11 @@ def main(argv):
     replay_path = argv[7] if len(argv) > 7 else None
     seed, shard, nshards = int(seed), int(shard), int(nshards)
     faulthandler.enable()
+    # xml.etree without its C accelerator (as on interpreters that do not ship _elementtree): shard 5 of every 8, or VF_NO_CET=1
+    if os.environ.get("VF_NO_CET", "") == "1" or (os.environ.get("VF_NO_CET") is None and shard % 8 == 5):
+        if "xml.etree.ElementTree" not in sys.modules:
+            sys.modules["_elementtree"] = None
+            os.environ["VF_NO_CET"] = "1"
     # the host's time zone is part of the environment the properties quantify over silently: every shard runs under another one
     # (POSIX TZ strings: no tz database needed).  VF_TZ overrides; a replay uses the zone recorded in the case.
     tz = os.environ.get("VF_TZ") or HOST_ZONES[(seed + shard) % len(HOST_ZONES)]
